@@ -313,6 +313,45 @@ func isValOrGated(t *sym.Term, atom string) bool {
 // set" by constant-folding t with the atom replaced by each value 0..15 (the
 // term only mentions that one atom), also ignoring the read's failure gate.
 func flagBitOf(t *sym.Term, atom string, bit uint, nAtom string) (bool, string) {
+	// structure: every integer the flag is computed from is, bit for bit, a constant or bit `bit` of the operand
+	// (exact for all 2^32 operand values; a detour through a float, an addition or another bit is refused)
+	akey := sym.Atom(atom, nil).Key()
+	why := ""
+	sym.Walk(t, func(x *sym.Term) bool {
+		if why != "" || x.Op != "bin" {
+			return why == ""
+		}
+		switch x.Name {
+		case "==", "<", "<=":
+		default:
+			return true
+		}
+		for _, a := range x.Args {
+			if a.IsConst() || !sym.Mentions(a, akey) {
+				continue
+			}
+			w, _, isInt := intWidth(a.T)
+			if !isInt {
+				why = "the flag is computed from a non-integer value " + shortKey(a)
+				return false
+			}
+			bits, err := toBits(a, w)
+			if err != nil {
+				why = "the flag is not a bit-level function of the operand: " + err.Error()
+				return false
+			}
+			for _, b := range bits {
+				if b.Atom != "" && (b.Atom != akey || b.Bit != int(bit)) {
+					why = fmt.Sprintf("the flag depends on %s, expected only bit %d of the operand", b.String(), bit)
+					return false
+				}
+			}
+		}
+		return false
+	})
+	if why != "" {
+		return false, why
+	}
 	for v := int64(0); v < 16; v++ {
 		x := sym.Subst(t, sym.Atom(atom, nil), sym.Const(constant.MakeInt64(v), types.Typ[types.Uint32]))
 		// the read succeeded: n != 0 (pick the constant 1 for the opaque length)
